@@ -101,9 +101,11 @@ def run(ctx):
         ctx.violation('R1', 'transform_subroutine:guard:operator', where,
                       f'the sanity check compares with `{ast.unparse(op)}` instead of `!=`: it does not trigger for every input in which '
                       f'the argument differs from the fixed value')
-    # left operand: routine.variable_map[f'..{key}..']
-    look = left.slice if isinstance(left, ast.Subscript) and 'variable_map' in ast.unparse(left.value) else None
-    if look is None or _fpattern(look) is None:
+    # left operand: a look-up of the renamed dummy in the routine's variable map (subscript or .get, possibly through an alias of the map)
+    look = next((x for x in ast.walk(left) if isinstance(x, ast.JoinedStr)), None)
+    vm_alias = set(X.names_assigned_from(fn, '.variable_map'))
+    via_map = 'variable_map' in ast.unparse(left) or any(isinstance(x, ast.Name) and x.id in vm_alias for x in ast.walk(left))
+    if look is None or _fpattern(look) is None or not via_map:
         raise AnalysisError(f'guard left operand `{ast.unparse(left)}` is not a variable_map look-up by f-string')
     if _fholes(look) == [kname]:
         ctx.judge('R1', 'guard:left-operand', facts={'lookup': ast.unparse(look)})
@@ -155,6 +157,13 @@ def run(ctx):
                           f'get no guard and silently compute with the fixed value for every other input')
         else:
             ctx.judge('R2', 'guard:installed', facts={'guards': allowed})
+    exits = [x for x in ast.walk(lp) if isinstance(x, (ast.Break, ast.Return))]
+    if exits:
+        ctx.violation('R2', 'transform_subroutine:guard:loop-exit', f'{ts.module.relpath}:{exits[0].lineno}',
+                      f'the loop that installs one guard per parametrised variable is left early (`{ast.unparse(exits[0])}`): the keys of '
+                      f'`{dname}` not yet visited get no guard although their dummies are replaced by the fixed value')
+    else:
+        ctx.judge('R2', 'guard:every key visited')
     # body of the conditional carries the abort statements
     bkw = next((k.value for k in cnd.keywords if k.arg == 'body'), None)
     bexpr = resolve(bkw) if bkw is not None else None
@@ -205,36 +214,81 @@ def run(ctx):
         ctx.violation('R3', 'transform_subroutine:rename-selection', f'{ts.module.relpath}:{rc.lineno}',
                       f'the dummy is renamed under `{" and ".join(rg)}`, not exactly when its name is a key of `{dname}`')
     # ---- R4 caller / callee agreement
-    stores = [a for a in ast.walk(fn) if isinstance(a, ast.Assign) and isinstance(a.targets[0], ast.Subscript)
-              and 'trafo_data' in ast.unparse(a.targets[0]) and isinstance(a.targets[0].value, ast.Subscript)]
-    if len(stores) != 1:
-        raise AnalysisError(f'expected one store into the successor trafo_data, found {len(stores)}')
-    st = stores[0]
-    key_e, val_e = st.targets[0].slice, st.value
     inv = [t.id for a in ast.walk(fn) if isinstance(a, ast.Assign) and isinstance(a.value, ast.DictComp) and len(a.value.generators) == 1
            and isinstance(a.value.generators[0].target, ast.Tuple) and len(a.value.generators[0].target.elts) == 2
-           and '.items()' in ast.unparse(a.value.generators[0].iter)
+           and ('.items()' in ast.unparse(a.value.generators[0].iter) or '.arg_iter()' in ast.unparse(a.value.generators[0].iter))
            and ast.unparse(a.value.key) == ast.unparse(a.value.generators[0].target.elts[1])
            and ast.unparse(a.value.value) == ast.unparse(a.value.generators[0].target.elts[0])
            for t in a.targets if isinstance(t, ast.Name)]
     amap = X.names_assigned_from(fn, '.arg_iter()')
-    ktxt, vtxt = ast.unparse(key_e), ast.unparse(val_e)
-    passed = None
-    for n in ast.walk(key_e):
-        if isinstance(n, ast.Subscript) and isinstance(n.value, ast.Name) and n.value.id in inv:
-            passed = ast.unparse(n.slice)
-    ok_key = passed is not None
-    ok_inv = bool(inv) and any(any(am in ast.unparse(a.value) for am in amap) for a in ast.walk(fn)
-                               if isinstance(a, ast.Assign) and any(isinstance(t, ast.Name) and t.id in inv for t in a.targets))
-    ok_val = passed is not None and vtxt == f'{dname}[{passed}.name]'
-    if ok_key and ok_inv and ok_val:
-        ctx.judge('R4', 'callee data: key = callee dummy, value = caller value of the passed variable', facts={'key': ktxt, 'value': vtxt})
+    inv_ok = [n for n in inv if any(isinstance(a, ast.Assign) and any(isinstance(t, ast.Name) and t.id == n for t in a.targets)
+                                    and ('.arg_iter()' in ast.unparse(a.value) or any(am in ast.unparse(a.value) for am in amap))
+                                    for a in ast.walk(fn))]
+    stores = []
+    for a in ast.walk(fn):
+        if isinstance(a, ast.Assign) and isinstance(a.targets[0], ast.Subscript):
+            key_e = a.targets[0].slice
+            p_ = [n.slice for n in ast.walk(key_e) if isinstance(n, ast.Subscript) and isinstance(n.value, ast.Name) and n.value.id in inv]
+            if p_:
+                stores.append((a, p_[0]))
+    if len(stores) != 1:
+        raise AnalysisError(f'expected one store keyed by the callee dummy (inverse of call.arg_iter()), found {len(stores)}')
+    st, passed_e = stores[0]
+    passed = ast.unparse(passed_e)
+    cont = st.targets[0].value
+    to_succ = 'trafo_data' in ast.unparse(cont) or (isinstance(cont, ast.Name) and any(
+        isinstance(a, ast.Assign) and isinstance(a.value, ast.Name) and a.value.id == cont.id and 'trafo_data' in ast.unparse(a.targets[0])
+        for a in ast.walk(fn)))
+    if not to_succ:
+        raise AnalysisError(f'`{ast.unparse(st)[:80]}`: the container does not reach the successor trafo_data')
+
+    def value_ok(v, p):
+        """is ``v`` the caller's fixed value of the passed variable ``p``?"""
+        txt = ast.unparse(v)
+        if txt in (f'{dname}[{p}.name]', f'{dname}[str({p}.name)]', f'{dname}[{p}.name.lower()]'):
+            return True, ''
+        if isinstance(v, ast.Name):
+            # loop target of zip(A, B) together with p?
+            for l in ast.walk(fn):
+                if isinstance(l, ast.For) and isinstance(l.target, ast.Tuple) and isinstance(l.iter, ast.Call) and X.call_name_of(l.iter) == 'zip' \
+                        and len(l.target.elts) == len(l.iter.args) == 2:
+                    tn = [ast.unparse(e) for e in l.target.elts]
+                    if v.id in tn and p in tn:
+                        A, B = (l.iter.args[tn.index(p)], l.iter.args[tn.index(v.id)])
+                        ca, cb = (_comp_of(fn, x) for x in (A, B))
+                        if ca is None or cb is None:
+                            return False, f'`{v.id}` and `{p}` are paired by zip({ast.unparse(A)}, {ast.unparse(B)}) of two lists whose construction is not recognised'
+                        ia, ib = (ast.unparse(c.generators[0].iter) for c in (ca, cb))
+                        if ia != ib:
+                            return False, (f'`{p}` and `{v.id}` are paired by zip() of two lists built in different orders (`{ia}` vs `{ib}`): with two '
+                                           f'or more parametrised variables passed in an order other than that of `{dname}` the callee fixes the wrong value')
+                        xb = cb.generators[0].target.id if isinstance(cb.generators[0].target, ast.Name) else None
+                        if ast.unparse(cb.elt) in (f'{dname}[{xb}.name]', f'{dname}[{xb}]'):
+                            return True, ''
+                        return False, f'the values list `{ast.unparse(cb)}` does not look the passed variable up in `{dname}`'
+            defs = [a.value for a in ast.walk(fn) if isinstance(a, ast.Assign) and any(isinstance(t, ast.Name) and t.id == v.id for t in a.targets)]
+            if len(defs) == 1:
+                return value_ok(defs[0], p)
+        return False, f'the value `{txt}` is not `{dname}[{p}.name]`'
+    okv, why = value_ok(st.value, passed)
+    if inv_ok and okv:
+        ctx.judge('R4', 'callee data: key = callee dummy, value = caller value of the passed variable',
+                  facts={'key': ast.unparse(st.targets[0].slice), 'value': ast.unparse(st.value)})
     else:
-        what = ('the key is not the callee dummy obtained from the inverse of call.arg_iter()' if not (ok_key and ok_inv)
-                else f'the value `{vtxt}` is not `{dname}[<passed variable>.name]`')
+        what = why if inv_ok else 'the key is not the callee dummy obtained from the inverse of call.arg_iter()'
         ctx.violation('R4', 'transform_subroutine:callee-data', f'{ts.module.relpath}:{st.lineno}',
                       f'`{ast.unparse(st)[:140]}`: {what}: the callee fixes a different dummy, or a different value, than the caller passed')
 
+
+def _comp_of(fn, e):
+    """the list comprehension a name / expression denotes (single definition)"""
+    if isinstance(e, (ast.ListComp, ast.GeneratorExp)):
+        return e
+    if isinstance(e, ast.Name):
+        defs = [a.value for a in ast.walk(fn) if isinstance(a, ast.Assign) and any(isinstance(t, ast.Name) and t.id == e.id for t in a.targets)]
+        if len(defs) == 1 and isinstance(defs[0], (ast.ListComp, ast.GeneratorExp)) and len(defs[0].generators) == 1:
+            return defs[0]
+    return None
 
 MUTANTS = [
     Mutant('guard-operator-eq', FILE, "condition = sym.Comparison(routine.variable_map[f'parametrised_{key}'], '!=',",
@@ -254,6 +308,12 @@ MUTANTS = [
     Mutant('callee-value-by-callee-name', FILE,
            "                            dic2p[call.arguments[index].name]",
            "                            dic2p[str(arg_map_reversed[call.arguments[index]])]", expect=('R4', 'callee-data')),
+    Mutant('guard-loop-break', FILE, "                    if f'parametrised_{key}' in routine.variable_map:\n",
+           "                    if f'parametrised_{key}' not in routine.variable_map:\n                        break\n                    if True:\n",
+           expect=('R2', 'loop-exit')),
+    Mutant('neutral-guard-loop-continue', FILE, "                    if f'parametrised_{key}' in routine.variable_map:\n",
+           "                    if f'parametrised_{key}' not in routine.variable_map:\n                        continue\n                    if True:\n",
+           expect=None),
     Mutant('neutral-error-stop', FILE, "ir.GenericStmt(text=\"STOP 1\"))", "ir.GenericStmt(text=\"ERROR STOP 1\"))", expect=None),
     Mutant('neutral-guard-literal-alias', FILE,
            "                        condition = sym.Comparison(routine.variable_map[f'parametrised_{key}'], '!=',\n                                                   sym.IntLiteral(value))",
